@@ -250,11 +250,39 @@ contract(A + 'ThreadPool._single_call', props=['C15'],
          raises={'Exception': 'not use_result_objects'},
          trace=[_single_call_mode])
 
+def _wrap_item(ex, st, k):
+    """result-object mode: an exception triple (exc_info of a failed item) is reported as that item's exception, every other
+    value as that item's result - never the other way round, never dropped"""
+    import z3
+    from pyvc.values import ObjSort, VNone, VOpaque
+    evs_ = st.trace[getattr(st, 'iter_start_trace', 0):]
+    ar = [e for e in evs_ if e.name == 'AsyncResult']
+    uro = ex.truth(st, st.env['use_result_objects'])
+    item = st.env['results'].elem(k)
+    goal = uro == z3.BoolVal(len(ar) == 1)
+    if len(ar) == 1 and isinstance(item, VOpaque):
+        is_tuple = z3.Function('opaque_isinstance_tuple', ObjSort, z3.BoolSort())(item.t)
+        n = z3.Function('opaque_len', ObjSort, z3.IntSort())(item.t)
+        second = [z3.Function('opaque_item_%s_%d' % (abs(hash(('i', 1))), ep), ObjSort, ObjSort)(item.t) for ep in range(0, st.epoch + 1)]
+        is_exc_obj = z3.Or([z3.Function('opaque_isinstance_Exception', ObjSort, z3.BoolSort())(t_) for t_ in second])
+        triple = z3.And(is_tuple, n == 3, is_exc_obj)
+        a = ar[0].args
+        ok_shape = len(a) == 2
+        goal = z3.And(goal, z3.BoolVal(ok_shape))
+        if ok_shape:
+            as_exc = z3.BoolVal(isinstance(a[0], VNone) and a[1] is not None and hasattr(a[1], 't') and a[1].t.eq(item.t))
+            as_res = z3.BoolVal(isinstance(a[1], VNone) and hasattr(a[0], 't') and a[0].t.eq(item.t))
+            goal = z3.And(goal, z3.If(triple, as_exc, as_res))
+    yield ('item_wrapped_as_result_or_exception', goal,
+           'AsyncResult(None, exc_info) for an item that is an exception triple, AsyncResult(value, None) otherwise; one per item')
+
+
 contract(A + '_result_iter', props=['C15'],
          types=dict(results='list[opaque]', use_result_objects='bool'), returns='list[opaque]', default_callee='opaque',
          opaque_spec={'AsyncResult': {'pure': True}, 'isinstance': {'returns': 'bool', 'pure': True}},
          ensures=['len(result) == len(results)',
                   'implies(not use_result_objects, forall(lambda m: implies(0 <= m < len(result), result[m] == results[m])))'],
          loops={0: dict(yield_type='opaque', inv=['len(yielded) == _k',
-                                                 'implies(not use_result_objects, forall(lambda m: implies(0 <= m < _k, yielded[m] == results[m])))'])},
+                                                 'implies(not use_result_objects, forall(lambda m: implies(0 <= m < _k, yielded[m] == results[m])))'],
+                        body_trace=[_wrap_item])},
          must_fail='len(result) == 0')
